@@ -325,6 +325,11 @@ class C15(Check):
             'contracts on astep/gstep/astepnn/gstepnn/normbase for rank-K+noise matrices (N 10-60, M 40-200 [quick: 10-40 x 40-140], K 1-5, '
             '0-15 % masked pixels with zero/wild/untouched flux, negative fluxes in default mode), epsilon in '
             '{None,0,0.1,10,1e3}, n_iter 2-8, each solved twice with the same seed under different global RNG state; '
+            'hmf_order: programs of constructions / solves / unrelated numpy.random use (two seeded objects built then solved, draws or '
+            'np.random.seed between construction and solve, solve() twice or three times on one object, interleaving with a '
+            'different-seed object, random programs of up to 5 objects) - every solve of an equal-seed object must be bitwise identical; '
+            'computechi2/pcomp: second object of the same input read in the opposite order and all attributes re-read after an object '
+            'of different input was built and read; pca_solve called again after a call on different data; '
             'pca_solve on float32 rank-K+noise spectra with masked pixels and fully masked columns, nkeep 1-4, niter 1-8, '
             'maxiter 0-2.  Non-trivial: computechi2 with >= 2 columns and >= 1 zero weight; pcomp with >= 2 variables; '
             'HMF with masked pixels and K >= 2; pca_solve with masked pixels and nkeep >= 2; distinct by hash of the input.')
